@@ -242,4 +242,10 @@ def archFopen (s : St) (filename : Bytes) (perms : Option Nat) : Option Path × 
 def archSymlink (s : St) (path target : Bytes) : Bool × St :=
   symlink (unlink s path).2 path target
 
+/-- `lha_arch_is_symlink(path)`: `lstat` says the object at `path` is a symbolic link -/
+def isSymlink (s : St) (path : Bytes) : Bool :=
+  match resolvePath s false path with
+  | some p => (match lookup s p with | some (.link _) => true | _ => false)
+  | none => false
+
 end LhasaV.Fs
